@@ -36,8 +36,10 @@ Property sentence → theorem
 * the whole property as one statement: `C07_full` (refuted: `C07_full_false`), `C07_partial` under `Guard` (= no mismatch at a direct Optional member)
 * former regions, now theorems / positive witnesses: `methodLevelTypeVar_per_call`, `nonGeneric_keeps_bindings_params`, `nonGeneric_keeps_bindings_result`
 * open regions, witnesses: `mismatch_in_optional_witness`, `failed_alternative_leaves_binding_witness`, `mismatch_in_alternative_aborts_witness`,
-  `first_base_with_other_arguments_escapes`, `first_base_without_arguments_binds_nothing`, `first_base_in_other_order_swaps`, `user_base_only_is_per_call`,
-  `generic_subclass_not_recognised_witness`, `init_of_generic_instance_unchecked_witness`
+  `init_of_generic_instance_unchecked_witness`
+* repaired regions (genericParamsFromFirstBase, genericSubclassNotRecognised): `fixed_first_base_with_other_arguments`, `fixed_first_base_without_arguments`,
+  `fixed_first_base_in_other_order`, `fixed_generic_subclass_recognised`; what they were, at the former translated facts: `former_generic_params_from_first_base`,
+  `former_generic_subclass_not_recognised`
 -/
 namespace PedVerif.TypeVars
 open PedVerif.Gen.TypeVars
@@ -2958,22 +2960,29 @@ theorem zipGenerics_params : ∀ (ps : List TVId) (acts : List A) (m : TVMap), p
         | some b => rfl
         | none => simp only; exact get?_set_ne m x htp
 
-/-- the first original base of the class lists exactly its type parameters, in their order: `class Box(Generic[T])`, `class Bag(List[T])`,
-    `class Table(Dict[K, V])`, `class Child(Base[T], Generic[T])`, `class C(List[T], Mixin)` -/
-def Shape.FirstBaseListsParams (sh : Shape) : Prop := sh.origBases.head?.map (·.2) = some (sh.params.map A.tv)
+/-- the accessor reads the type parameters of the class off `__parameters__` — whatever base the class has them from (translated:
+    `genericParamsFrom`) -/
+theorem typeVariables_are_parameters (sh : Shape) : sh.typeVariables = some (sh.params.map A.tv) := by
+  simp [Shape.typeVariables, Shape.typeVariablesWith, genericParamsFrom]
 
-/-- **an instance `Cls[X1, ..]()` of such a class resolves its parameters to `X1, ..`** — whether or not `__orig_bases__` has an
-    explicit `Generic[...]` entry: no exception leaves the accessor, and the bindings are the ones the property speaks of
-    (rests on the translated source of the type parameters, `genericParamsFrom`) -/
-theorem shape_resolves (sh : Shape) (hgen : sh.genericInBases = true) (hfirst : sh.FirstBaseListsParams) (hnd : sh.params.Nodup)
+/-- a class with type parameters is generic for the accessor — also one that has them only through a generic base (translated: `genericTest`) -/
+theorem isGeneric_of_params (sh : Shape) (hne : sh.params ≠ []) : sh.isGeneric = true := by
+  have hemp : sh.params.isEmpty = false := by cases h : sh.params with | nil => exact absurd h hne | cons _ _ => rfl
+  simp [Shape.isGeneric, Shape.isGenericWith, genericTest, hemp]
+
+/-- **an instance `Cls[X1, ..]()` of a class with type parameters resolves them to `X1, ..`** — whatever makes the class generic (an
+    explicit `Generic[...]`, a typing alias base, a user generic base, several bases in any order): no exception leaves the accessor,
+    and the bindings are the ones the property speaks of (rests on `genericParamsFrom`, `genericTest`) -/
+theorem shape_resolves (sh : Shape) (hne : sh.params ≠ []) (hnd : sh.params.Nodup)
     (acts : List A) (hact : sh.actual = some acts) (hlen : sh.params.length = acts.length) :
     ∃ g, sh.kind = some (.genericInstance sh.params g) ∧ ∀ t, g.get? t = (Spec.zipX sh.params acts).get? t := by
-  have htv : sh.typeVariables = some (sh.params.map A.tv) := by
-    unfold Shape.FirstBaseListsParams at hfirst
-    simp [Shape.typeVariables, genericParamsFrom, hfirst]
+  have htv := typeVariables_are_parameters sh
+  have hgen := isGeneric_of_params sh hne
+  simp only [Shape.typeVariables] at htv
+  simp only [Shape.isGeneric] at hgen
   obtain ⟨g, hg, hget⟩ := zipGenerics_params sh.params acts [] hnd hlen
   refine ⟨g, ?_, ?_⟩
-  · simp [Shape.kind, Shape.isGeneric, genericTest, genericsFromOrigClass, hgen, Shape.generics, hact, htv, hg]
+  · simp [Shape.kind, Shape.kindWith, genericsFromOrigClass, hgen, Shape.genericsWith, hact, htv, hg]
   · intro t
     rw [hget t]
     cases (Spec.zipX sh.params acts).get? t <;> rfl
@@ -2981,7 +2990,8 @@ theorem shape_resolves (sh : Shape) (hgen : sh.genericInBases = true) (hfirst : 
 /-- inside `__init__` (no `__orig_class__` yet) nothing is read from the bases: no exception, no class-parameter binding -/
 theorem shape_in_init (sh : Shape) (hact : sh.inInit = true) :
     sh.kind = some (if sh.isGeneric then .genericInstance sh.params [] else .resetEachAccess) := by
-  cases hgen : sh.isGeneric <;> simp [Shape.kind, genericsFromOrigClass, hgen, Shape.generics, Shape.actual, hact]
+  have h : sh.isGenericWith genericTest = sh.isGeneric := rfl
+  cases hgen : sh.isGeneric <;> simp [Shape.kind, Shape.kindWith, h, genericsFromOrigClass, hgen, Shape.genericsWith, Shape.actual, hact]
 
 theorem set_new_key : ∀ (m : TVMap) (t : TVId) (x : A), t ∉ keys m → m.set t x = m ++ [(t, x)] := by
   intro m
@@ -3021,30 +3031,32 @@ theorem zipGenerics_exact : ∀ (ps : List TVId) (acts : List A) (m : TVMap), ps
         refine ⟨by simpa [keys] using hdis q (by simp [hq]), ?_⟩
         intro hqp; subst hqp; exact hnd.1 hq
 
-/-- **what the library derives for an instance `Cls[X1, ..](...)` of such a class, once `__init__` has returned, is what the
-    DECLARATIONS say**: the store of a generic instance with exactly `Ti ↦ Xi` — `Shape.kind` (the model of `is_instance_of_generic_class`
-    and `check_instance_of_generic_class_and_get_type_vars`, resting on `genericsFromOrigClass` and `genericParamsFrom`) equals
-    `Spec.shapeKind` (read off the class statement and the creating expression) -/
-theorem shape_kind_eq_spec (sh : Shape) (hgen : sh.genericInBases = true) (hfirst : sh.FirstBaseListsParams) (hnd : sh.params.Nodup)
+/-- **what the library derives for an instance `Cls[X1, ..](...)` of a class with type parameters, once `__init__` has returned, is
+    what the DECLARATIONS say**: the store of a generic instance with exactly `Ti ↦ Xi` — `Shape.kind` (the model of
+    `is_instance_of_generic_class` and `check_instance_of_generic_class_and_get_type_vars`, resting on `genericsFromOrigClass`,
+    `genericParamsFrom` and `genericTest`) equals `Spec.shapeKind` (read off the class statement and the creating expression).
+    No condition on the bases: `R(Dict[str, T], Generic[T])`, `C(Mixin, Generic[T])`, `C(List[List[T]])`, `C(Dict[K, V], Generic[V, K])`,
+    `Child(Base[T])` are covered (the regions of the repaired findings genericParamsFromFirstBase / genericSubclassNotRecognised). -/
+theorem shape_kind_eq_spec (sh : Shape) (hnd : sh.params.Nodup)
     (hne : sh.params ≠ []) (X : List A) (hdecl : sh.declared = some X) (hinit : sh.inInit = false) (hlen : sh.params.length = X.length) :
     sh.kind = some (Spec.shapeKind sh) := by
-  have htv : sh.typeVariables = some (sh.params.map A.tv) := by
-    unfold Shape.FirstBaseListsParams at hfirst
-    simp [Shape.typeVariables, genericParamsFrom, hfirst]
+  have htv := typeVariables_are_parameters sh
+  have hgen := isGeneric_of_params sh hne
+  simp only [Shape.typeVariables] at htv
+  simp only [Shape.isGeneric] at hgen
   have hz := zipGenerics_exact sh.params X [] hnd hlen (by intro p _; simp [keys])
   have hemp : sh.params.isEmpty = false := by cases h : sh.params with | nil => exact absurd h hne | cons _ _ => rfl
-  simp [Shape.kind, Shape.isGeneric, genericTest, genericsFromOrigClass, hgen, Shape.generics, Shape.actual, hinit, hdecl, htv, hz, Spec.shapeKind, hemp]
+  simp [Shape.kind, Shape.kindWith, genericsFromOrigClass, hgen, Shape.genericsWith, Shape.actual, hinit, hdecl, htv, hz, Spec.shapeKind, hemp]
 
 /-- **the per-instance clause from the declarations**: a method call, made after construction, on an instance created as
-    `Cls[X1, ..](...)` of a generic `@pedantic_class` class whose first original base lists its parameters — `Box(Generic[T])`,
-    `Bag(List[T])`, `Table(Dict[K, V])`, `Child(Base[T], Generic[T])`, `C(List[T], Mixin)` — ends as the specification of `Cls[X]`
-    demands: the model derives the store from the class shape (`hk`), the specification from the declarations -/
-theorem declared_call_refines (env : Env) (wf : EnvWF env) (sh : Shape) (hgen : sh.genericInBases = true) (hfirst : sh.FirstBaseListsParams)
+    `Cls[X1, ..](...)` of ANY `@pedantic_class` class with type parameters ends as the specification of `Cls[X]` demands: the model
+    derives the store from the class shape (`hk`), the specification from the declarations -/
+theorem declared_call_refines (env : Env) (wf : EnvWF env) (sh : Shape)
     (hnd : sh.params.Nodup) (hne : sh.params ≠ []) (X : List A) (hdecl : sh.declared = some X) (hinit : sh.inInit = false)
     (hlen : sh.params.length = X.length) (c : Call) (hk : sh.kind = some c.kind) (hv : InVocab env c) (s : Stores) :
     Meets (kindG (Spec.shapeKind sh)) (Spec.specCall env { c with kind := Spec.shapeKind sh }) (runCall env c s).1 := by
   have hkind : c.kind = Spec.shapeKind sh := by
-    have := shape_kind_eq_spec sh hgen hfirst hnd hne X hdecl hinit hlen
+    have := shape_kind_eq_spec sh hnd hne X hdecl hinit hlen
     rw [this] at hk
     exact (Option.some.inj hk).symm
   have hc : ({ c with kind := Spec.shapeKind sh } : Call) = c := by rw [← hkind]
@@ -3054,24 +3066,64 @@ theorem declared_call_refines (env : Env) (wf : EnvWF env) (sh : Shape) (hgen : 
 /-- `class Bag(List[T])`, `Bag[str]()`: T ↦ str (0 = T, 3 = str); `class Table(Dict[K, V])`, `Table[str, int]()` (0, 1 = K, V) -/
 example : ∃ g, (Shape.mk true [0] [(false, [.tv 0])] (some [.cls 3]) false).kind = some (.genericInstance [0] g) ∧
     ∀ t, g.get? t = (Spec.zipX [0] [.cls 3]).get? t :=
-  shape_resolves (Shape.mk true [0] [(false, [.tv 0])] (some [.cls 3]) false) rfl (by simp [Shape.FirstBaseListsParams]) (by decide) _ rfl rfl
+  shape_resolves (Shape.mk true [0] [(false, [.tv 0])] (some [.cls 3]) false) (by decide) (by decide) _ rfl rfl
 example : ∃ g, (Shape.mk true [0, 1] [(false, [.tv 0, .tv 1])] (some [.cls 3, .cls 2]) false).kind = some (.genericInstance [0, 1] g) ∧
     ∀ t, g.get? t = (Spec.zipX [0, 1] [.cls 3, .cls 2]).get? t :=
-  shape_resolves (Shape.mk true [0, 1] [(false, [.tv 0, .tv 1])] (some [.cls 3, .cls 2]) false) rfl (by simp [Shape.FirstBaseListsParams]) (by decide) _ rfl rfl
+  shape_resolves (Shape.mk true [0, 1] [(false, [.tv 0, .tv 1])] (some [.cls 3, .cls 2]) false) (by decide) (by decide) _ rfl rfl
 
-/-- finding `genericParamsFromFirstBase`, witnesses on the model: `class R(Dict[str, T], Generic[T])`, `R[int]()` — two "type
-    variables", one argument: the accessor raises IndexError (`none`) -/
-theorem first_base_with_other_arguments_escapes :
-    (Shape.mk true [0] [(false, [.cls 3, .tv 0]), (true, [.tv 0])] (some [.cls 2]) false).kind.isNone = true := by decide
+/-! #### repaired findings genericParamsFromFirstBase / genericSubclassNotRecognised (repair: the accessor reads
+    `type(instance).__parameters__`, and a class is generic when it still has type parameters).  `fixed_*`: the shapes of the former
+    failing inputs on the CURRENT translated facts (instances of `shape_kind_eq_spec`, and the former failing calls evaluated);
+    `former_*`: the same shapes evaluated at the FORMER facts (`Shape.kindWith .firstOrigBase .directBase`) — what the finding was. -/
 
-/-- `class C(Mixin, Generic[T])`, `C[int]()`: the first base has no type arguments — T is not taken from `[int]` at all -/
-theorem first_base_without_arguments_binds_nothing :
-    ((Shape.mk true [0] [(false, []), (true, [.tv 0])] (some [.cls 2]) false).generics.map (·.length)) = some 0 := by decide
+private def shRegistry : Shape := ⟨true, [0], [(false, [.cls 3, .tv 0]), (true, [.tv 0])], some [.cls 2], false⟩       -- R(Dict[str, T], Generic[T])[int]
+private def shMixinFirst : Shape := ⟨true, [0], [(false, []), (true, [.tv 0])], some [.cls 2], false⟩                  -- C(Mixin, Generic[T])[int]
+private def shNested : Shape := ⟨true, [0], [(false, [.listOf (.tv 0)])], some [.cls 2], false⟩                        -- C(List[List[T]])[int]
+private def shSwapped : Shape := ⟨true, [1, 0], [(false, [.tv 0, .tv 1]), (true, [.tv 1, .tv 0])], some [.cls 3, .cls 2], false⟩   -- C(Dict[K, V], Generic[V, K])[str, int]
+private def shChild : Shape := ⟨false, [0], [(false, [.tv 0])], some [.cls 2], false⟩                                  -- Child(Base[T])[int]
+private def putCall (t : TVId) (k : StoreKind) (v : Val) : Call := ⟨0, 0, k, false, [(.tv t, v), retNone]⟩
 
-/-- `class C(Dict[K, V], Generic[V, K])` (parameters V, K = 1, 0), `C[str, int]()`: V should be str, K int — the code binds K ↦ str -/
-theorem first_base_in_other_order_swaps :
-    ((Shape.mk true [1, 0] [(false, [.tv 0, .tv 1]), (true, [.tv 1, .tv 0])] (some [.cls 3, .cls 2]) false).generics.map
-      (fun g => match g.get? 0 with | some (.cls 3) => true | _ => false)) = some true := by decide
+/-- `R(Dict[str, T], Generic[T])`, `R[int]()`: no exception, T ↦ int — `put(item=1)` is accepted, `put(item='s')` raises the mismatch -/
+theorem fixed_first_base_with_other_arguments :
+    shRegistry.kind = some (Spec.shapeKind shRegistry) ∧
+    (shRegistry.kind.map fun k => (runCall envX (putCall 0 k (.inst 2)) Stores.empty).1) = some .ok ∧
+    (shRegistry.kind.map fun k => (runCall envX (putCall 0 k (.inst 3)) Stores.empty).1) = some .pedTVMismatch :=
+  ⟨shape_kind_eq_spec shRegistry (by decide) (by decide) [.cls 2] rfl rfl rfl, by decide, by decide⟩
+
+/-- `C(Mixin, Generic[T])`, `C(List[List[T]])`: `C[int]().put(item='s')` raises the mismatch -/
+theorem fixed_first_base_without_arguments :
+    shMixinFirst.kind = some (Spec.shapeKind shMixinFirst) ∧ shNested.kind = some (Spec.shapeKind shNested) ∧
+    (shMixinFirst.kind.map fun k => (runCall envX (putCall 0 k (.inst 3)) Stores.empty).1) = some .pedTVMismatch ∧
+    (shNested.kind.map fun k => (runCall envX (putCall 0 k (.inst 3)) Stores.empty).1) = some .pedTVMismatch :=
+  ⟨shape_kind_eq_spec shMixinFirst (by decide) (by decide) [.cls 2] rfl rfl rfl,
+   shape_kind_eq_spec shNested (by decide) (by decide) [.cls 2] rfl rfl rfl, by decide, by decide⟩
+
+/-- `C(Dict[K, V], Generic[V, K])` (parameters V, K = 1, 0), `C[str, int]()`: V ↦ str, K ↦ int — `put_v(item='s')` is accepted, `put_v(item=1)` not -/
+theorem fixed_first_base_in_other_order :
+    shSwapped.kind = some (Spec.shapeKind shSwapped) ∧
+    (shSwapped.kind.map fun k => (runCall envX (putCall 1 k (.inst 3)) Stores.empty).1) = some .ok ∧
+    (shSwapped.kind.map fun k => (runCall envX (putCall 1 k (.inst 2)) Stores.empty).1) = some .pedTVMismatch :=
+  ⟨shape_kind_eq_spec shSwapped (by decide) (by decide) [.cls 3, .cls 2] rfl rfl rfl, by decide, by decide⟩
+
+/-- `class Child(Base[T])`, `Child[int]().put(item='s')`: the instance is one of a generic class, the call raises the mismatch the
+    specification of `Child[int]` demands -/
+theorem fixed_generic_subclass_recognised :
+    shChild.kind = some (Spec.shapeKind shChild) ∧
+    (shChild.kind.map fun k => (runCall envX (putCall 0 k (.inst 3)) Stores.empty).1) = some .pedTVMismatch ∧
+    Spec.specCall envX (putCall 0 (Spec.shapeKind shChild) (.inst 3)) = .reject ∧ Spec.shapeRegions shChild = [] :=
+  ⟨shape_kind_eq_spec shChild (by decide) (by decide) [.cls 2] rfl rfl rfl, by decide, by decide, by decide⟩
+
+/-- what the findings were, at the former facts (type parameters = the arguments of `__orig_bases__[0]`; generic = `Generic` among the
+    direct bases): IndexError for `R`; T not bound at all for the mixin-first class; K ↦ str for the swapped one; the store of a
+    non-generic class for `Child` -/
+theorem former_generic_params_from_first_base :
+    (shRegistry.kindWith .firstOrigBase .directBase).isNone = true ∧
+    ((shMixinFirst.genericsWith .firstOrigBase).map (·.length)) = some 0 ∧
+    ((shSwapped.genericsWith .firstOrigBase).map (fun g => match g.get? 0 with | some (.cls 3) => true | _ => false)) = some true := by decide
+
+theorem former_generic_subclass_not_recognised (params : List TVId) (ob : List (Bool × List A)) (act : Option (List A)) (ini : Bool) (src : ParamSrc) :
+    (Shape.mk false params ob act ini).kindWith src .directBase = some .resetEachAccess := by
+  simp [Shape.kindWith, Shape.isGenericWith, genericsFromOrigClass]
 
 /-- finding `initOfGenericInstanceUnchecked`, witness: `@pedantic_class class BoxI(Generic[T]): def __init__(self, a: T) -> None`;
     `BoxI[int](a='x')` — the declarations say T = int, the specification demands a rejection; inside `__init__` the instance has no
@@ -3081,20 +3133,6 @@ theorem init_of_generic_instance_unchecked_witness :
     let c (k : StoreKind) : Call := ⟨0, 0, k, false, [(T, .inst 3), retNone]⟩
     (sh.kind.map fun k => (runCall envX (c k) Stores.empty).1) = some .ok ∧
     Spec.specCall envX (c (Spec.shapeKind sh)) = .reject ∧ Spec.shapeRegions sh = ["initOfGenericInstanceUnchecked"] := by decide
-
-/-- finding `genericSubclassNotRecognised`, witness: `class Sub(Box[T])`, `Sub[int]().put(a='s')` — the specification (declarations:
-    T = int) demands a rejection, the model gives the instance the store of a non-generic class and accepts -/
-theorem generic_subclass_not_recognised_witness :
-    let sh : Shape := ⟨false, [0], [(false, [.tv 0])], some [.cls 2], false⟩
-    let c (k : StoreKind) : Call := ⟨0, 0, k, false, [(T, .inst 3), retNone]⟩
-    (sh.kind.map fun k => (runCall envX (c k) Stores.empty).1) = some .ok ∧
-    Spec.specCall envX (c (Spec.shapeKind sh)) = .reject ∧ Spec.shapeRegions sh = ["genericSubclassNotRecognised"] := by decide
-
-/-- finding `genericSubclassNotRecognised`: `class Child(Base[T])` — `Generic` is not among the direct bases, the instance gets
-    the store of a non-generic class whatever `X` is -/
-theorem user_base_only_is_per_call (params : List TVId) (ob : List (Bool × List A)) (act : Option (List A)) (ini : Bool) :
-    (Shape.mk false params ob act ini).kind = some .resetEachAccess := by
-  simp [Shape.kind, Shape.isGeneric, genericTest, genericsFromOrigClass]
 
 /-! ### concrete unions (the class table of the harness: 2 int, 3 str, 5 float, 0 object; TypeVar 2 = TC(int, str)) -/
 
@@ -3171,10 +3209,8 @@ def PCall.model (decls : List Shape) (d : PCall) : Option Call :=
 def PCall.spec (decls : List Shape) (d : PCall) : Option Call :=
   (decls[d.inst]?).map fun sh => ⟨d.inst, d.fn, Spec.shapeKind { sh with inInit := d.inInit }, d.scanFails, d.checks⟩
 
-/-- a generic class whose first original base lists its parameters, created with as many type arguments -/
+/-- a class with type parameters — whatever it has them from — created with as many type arguments -/
 structure Shape.Declared (sh : Shape) : Prop where
-  generic : sh.genericInBases = true
-  first : sh.FirstBaseListsParams
   nodup : sh.params.Nodup
   nonempty : sh.params ≠ []
   args : ∃ X, sh.declared = some X ∧ sh.params.length = X.length
@@ -3184,10 +3220,10 @@ theorem pcall_model_eq_spec (decls : List Shape) (hd : ∀ sh ∈ decls, sh.Decl
   have hsh : decls[d.inst]? = some decls[d.inst] := List.getElem?_eq_getElem hin
   have hdecl := hd decls[d.inst] (List.getElem_mem hin)
   obtain ⟨X, hX, hlen⟩ := hdecl.args
-  have hk := shape_kind_eq_spec ({ decls[d.inst] with inInit := d.inInit } : Shape) hdecl.generic hdecl.first hdecl.nodup hdecl.nonempty X hX hi hlen
+  have hk := shape_kind_eq_spec ({ decls[d.inst] with inInit := d.inInit } : Shape) hdecl.nodup hdecl.nonempty X hX hi hlen
   simp only [PCall.model, PCall.spec, hsh, Option.bind_some, Option.map_some, hk]
 
-/-- **C07 over declared instances, outside the recorded regions**: a program declares its instances ONCE (class statement as typing
+/-- **C07 over declared instances** (any class shape; the only guards are the vocabulary and `Guard` of `C07_partial`): a program declares its instances ONCE (class statement as typing
     presents it + the type arguments of the creating expression); every history of calls made after construction on these instances —
     any order, any number, any methods — is run by the model with store kinds and bindings it DERIVES from the declarations, and ends,
     step by step, as the specification of `Cls[X]` (read off the same declarations) demands.  No call carries a binding of its own. -/
@@ -3211,18 +3247,22 @@ theorem C07_declared_partial (env : Env) (wf : EnvWF env) (decls : List Shape) (
     · simp [List.mapM_cons, heq, hc, hm]
     · simp [List.mapM_cons, hc, hs]
 
-/-- `Box(Generic[T])[int]` and `Bag(List[T])[str]` (no `Generic[...]` entry among the original bases) are declared instances; the
-    model derives a store for a call on each (0 = T, 2 = int, 3 = str) -/
+/-- `Box(Generic[T])[int]`, `Bag(List[T])[str]` (no `Generic[...]` entry among the original bases), `R(Dict[str, T], Generic[T])[int]` and
+    `Child(Base[T])[int]` are declared instances; the model derives a store for a call on each (0 = T, 2 = int, 3 = str) -/
 example :
-    let decls : List Shape := [⟨true, [0], [(true, [.tv 0])], some [.cls 2], false⟩, ⟨true, [0], [(false, [.tv 0])], some [.cls 3], false⟩]
+    let decls : List Shape := [⟨true, [0], [(true, [.tv 0])], some [.cls 2], false⟩, ⟨true, [0], [(false, [.tv 0])], some [.cls 3], false⟩,
+      ⟨true, [0], [(false, [.cls 3, .tv 0]), (true, [.tv 0])], some [.cls 2], false⟩, ⟨false, [0], [(false, [.tv 0])], some [.cls 2], false⟩]
     (∀ sh ∈ decls, sh.Declared) ∧
-    ((PCall.mk 1 0 false false [(.tv 0, .inst 3), (.cls 1, .inst 1)]).model decls).isSome = true := by
-  refine ⟨?_, by decide⟩
+    ((PCall.mk 1 0 false false [(.tv 0, .inst 3), (.cls 1, .inst 1)]).model decls).isSome = true ∧
+    ((PCall.mk 3 0 false false [(.tv 0, .inst 3), (.cls 1, .inst 1)]).model decls).isSome = true := by
+  refine ⟨?_, by decide, by decide⟩
   intro sh hsh
   simp only [List.mem_cons, List.mem_nil_iff, or_false] at hsh
-  rcases hsh with rfl | rfl
-  · exact ⟨rfl, by simp [Shape.FirstBaseListsParams], by decide, by decide, ⟨[.cls 2], rfl, rfl⟩⟩
-  · exact ⟨rfl, by simp [Shape.FirstBaseListsParams], by decide, by decide, ⟨[.cls 3], rfl, rfl⟩⟩
+  rcases hsh with rfl | rfl | rfl | rfl
+  · exact ⟨by decide, by decide, ⟨[.cls 2], rfl, rfl⟩⟩
+  · exact ⟨by decide, by decide, ⟨[.cls 3], rfl, rfl⟩⟩
+  · exact ⟨by decide, by decide, ⟨[.cls 2], rfl, rfl⟩⟩
+  · exact ⟨by decide, by decide, ⟨[.cls 2], rfl, rfl⟩⟩
 
 /-! ### `Optional[x]` spelled `Union[None, x]` (None first) -/
 
